@@ -152,6 +152,11 @@ def condRes : Res Ty → Res Ty
   | .err es => .err es
   | .crash s => .crash s
 
+/-- the errors a list of sub-trees appended (none when it succeeded) -/
+def errsOf : Res Unit → List Err
+  | .err es => es
+  | _ => []
+
 mutual
   def infer (key : Expr → Text) (Γ : TEnv) (F : Facts) : Expr → Res Ty
     | .member i n => memberRes Γ F (key (.member i n)) n (infer key Γ F i)
@@ -217,16 +222,17 @@ mutual
       match inferArgs key Γ F args with
       | .crash s => .crash s
       | ra =>
-        let ea := match ra with | .err es => es | _ => []
         match memberRes Γ F (key (.member i n)) n (infer key Γ F i) with
         | .crash s => .crash s
-        | .err es => .err (ea ++ es)
-        | .ok (.opt _) => .err (ea ++ [.methodMemberOptional])
+        | .err es => .err (errsOf ra ++ es)
+        | .ok (.opt _) => .err (errsOf ra ++ [.methodMemberOptional])
         | .ok mt =>
-          if ea ≠ [] then .err ea else
-          match mt with
-          | .method _ ret => .ok (strip F (key (.methodCall i n args)) (retTy ret))
-          | _ => .err [.notAMethod]
+          match ra with
+          | .err ea => .err ea
+          | _ =>
+            match mt with
+            | .method _ ret => .ok (strip F (key (.methodCall i n args)) (retTy ret))
+            | _ => .err [.notAMethod]
     | .name x => inferName key Γ F x
     | .funCall n args =>
       match inferName key Γ F n with
@@ -237,14 +243,21 @@ mutual
         match inferArgs key Γ F args with
         | .crash s => .crash s
         | ra =>
-          let ea := match ra with | .err es => es | _ => []
           match rf with
-          | .err e0 => .err (e0 ++ ea)
-          | .ok (.verif _ ret) => if ea ≠ [] then .err ea else .ok (strip F (key (.funCall n args)) (retTy ret))
-          | .ok (.builtin _ ret) => if ea ≠ [] then .err ea else .ok (strip F (key (.funCall n args)) (retTy ret))
+          | .err e0 => .err (e0 ++ errsOf ra)
+          | .ok (.verif _ ret) =>
+            match ra with
+            | .err ea => .err ea
+            | _ => .ok (strip F (key (.funCall n args)) (retTy ret))
+          | .ok (.builtin _ ret) =>
+            match ra with
+            | .err ea => .err ea
+            | _ => .ok (strip F (key (.funCall n args)) (retTy ret))
           | .ok _ =>
             -- the error is appended but `failed` stays False: `assert result is not None` raises
-            if ea ≠ [] then .err (Err.notAFunction :: ea) else .crash "function_call:assert-result"
+            match ra with
+            | .err ea => .err (Err.notAFunction :: ea)
+            | _ => .crash "function_call:assert-result"
           | .crash s => .crash s
     | .const c => .ok (constTy c)
     | .isNone e =>
@@ -353,12 +366,12 @@ mutual
     | e :: es =>
       match infer key Γ F e with
       | .crash s => .crash s
-      | r =>
-        let here := match r with | .err xs => xs | _ => []
+      | .err xs =>
         match inferArgs key Γ F es with
-        | .ok _ => if here ≠ [] then .err here else .ok ()
-        | .err xs => .err (here ++ xs)
+        | .ok _ => .err xs
+        | .err ys => .err (xs ++ ys)
         | .crash s => .crash s
+      | .ok _ => inferArgs key Γ F es
   /-- `transform_joined_str` / `transform_formatted_value` -/
   def inferParts (key : Expr → Text) (Γ : TEnv) (F : Facts) : List JPart → Res Unit
     | [] => .ok ()
@@ -366,15 +379,18 @@ mutual
     | .fv e :: ps =>
       match infer key Γ F e with
       | .crash s => .crash s
-      | r =>
-        let here := match r with
-          | .err xs => xs
-          | .ok τ => if τ.isOpt then [Err.fvOptional] else []
-          | _ => []
+      | .err xs =>
         match inferParts key Γ F ps with
-        | .ok _ => if here ≠ [] then .err here else .ok ()
-        | .err xs => .err (here ++ xs)
+        | .ok _ => .err xs
+        | .err ys => .err (xs ++ ys)
         | .crash s => .crash s
+      | .ok τ =>
+        if τ.isOpt then
+          match inferParts key Γ F ps with
+          | .ok _ => .err [.fvOptional]
+          | .err ys => .err (.fvOptional :: ys)
+          | .crash s => .crash s
+        else inferParts key Γ F ps
 end
 
 /-- The real inferrer: keys are the canonical strings. -/
